@@ -153,7 +153,7 @@ func ruleC02_1(c *Ctx) {
 	c.examined(len(ws))
 	seenVerbatim := map[*ssa.Function]bool{}
 	for _, w := range ws {
-		encl := outermost(w.Fn)
+		encl := homeFn(w.Fn)
 		c.touch(encl)
 		name := "Frag.Req write in " + shortFn(encl)
 		if w.Kind != "store" {
@@ -161,7 +161,25 @@ func ruleC02_1(c *Ctx) {
 			continue
 		}
 		kinds := c.byteRootKinds(w.Val, req)
-		if encl == def || encl == eval {
+		inFam := func(root *ssa.Function) bool {
+			if root == nil {
+				return false
+			}
+			for _, g := range p.family(root) {
+				if g == w.Fn || g == encl {
+					return true
+				}
+			}
+			return false
+		}
+		_, fromReadBuf := kinds["readbuf"]
+		if encl == def || encl == eval || ((inFam(def) || inFam(eval)) && fromReadBuf) {
+			if inFam(def) {
+				seenVerbatim[def] = true
+			}
+			if inFam(eval) {
+				seenVerbatim[eval] = true
+			}
 			// verbatim copy: append(frag.Req[:0], buf.ReadBuf()...)
 			only := true
 			for k := range kinds {
@@ -176,7 +194,7 @@ func ruleC02_1(c *Ctx) {
 					if sl, ok := call.Call.Args[0].(*ssa.Slice); ok && sl.High != nil && isZero(sl.High) {
 						if rb, ok := call.Call.Args[1].(*ssa.Call); ok && rb.Call.StaticCallee() == p.Method(pkgCodec, "Buffer", "ReadBuf") {
 							// the buffer must be the function's own buf parameter
-							if prm, ok := strip(rb.Call.Args[0]).(*ssa.Parameter); ok && prm.Parent() == encl {
+							if prm, ok := rb.Call.Args[0].(*ssa.Parameter); ok && (prm.Parent() == encl || prm.Parent() == w.Fn) {
 								okShape = true
 							}
 						}
@@ -265,13 +283,13 @@ func ruleC02_2(c *Ctx) {
 	}
 	// toLower is applied only to the command name: single call site chain Decode → Transform2Type(first parseLine result) → toLower(command)
 	ts := p.SitesOf(toLower)
-	okT := len(ts) == 1 && outermost(ts[0].Fn) == t2t && ts[0].Call != nil && strip(ts[0].Call.Args[0]) == ssa.Value(t2t.Params[0])
+	okT := len(ts) == 1 && homeFn(ts[0].Fn) == t2t && ts[0].Call != nil && strip(ts[0].Call.Args[0]) == ssa.Value(t2t.Params[0])
 	c.check(okT, "toLower call sites", p.pos(toLower.Pos()), "only Transform2Type(command) folds case",
 		fmt.Sprintf("toLower is applied somewhere other than to Transform2Type's command argument (%d sites): request arguments would be altered", len(ts)))
 	t2s := p.SitesOf(t2t)
 	okS := false
 	detail := fmt.Sprintf("%d call sites", len(t2s))
-	if len(t2s) == 1 && outermost(t2s[0].Fn) == dec && t2s[0].Call != nil {
+	if len(t2s) == 1 && homeFn(t2s[0].Fn) == dec && t2s[0].Call != nil {
 		arg := strip(t2s[0].Call.Args[0])
 		if ex, ok := arg.(*ssa.Extract); ok && ex.Index == 0 {
 			if call, ok := p.isCallTo(ex.Tuple, parseLine); ok {
@@ -320,7 +338,7 @@ func ruleC02_3(c *Ctx) {
 	c.examined(len(ws))
 	copySeen := false
 	for _, w := range ws {
-		encl := outermost(w.Fn)
+		encl := homeFn(w.Fn)
 		c.touch(encl)
 		name := "Frag.RspBody write in " + shortFn(encl)
 		if w.Kind != "store" {
@@ -345,7 +363,7 @@ func ruleC02_3(c *Ctx) {
 	c.examined(len(mws))
 	relay := false
 	for _, w := range mws {
-		encl := outermost(w.Fn)
+		encl := homeFn(w.Fn)
 		c.touch(encl)
 		name := "Msg.RspBody write in " + shortFn(encl)
 		if w.Kind != "store" {
@@ -392,7 +410,7 @@ func ruleC02_3(c *Ctx) {
 	peer := p.Field(pkgCore, "Frag", "Peer")
 	okPeer := true
 	for _, w := range mws {
-		if outermost(w.Fn) != sdef {
+		if homeFn(w.Fn) != sdef {
 			continue
 		}
 		if base, ok := fieldLoad(w.Base, peer); !ok || strip(base) != ssa.Value(sdef.Params[1]) {
@@ -504,7 +522,7 @@ func ruleC02_5(c *Ctx) {
 			if strip(arg) == ssa.Value(data) {
 				// whole input: must not be reachable after a (partially) successful write
 				partial := false
-				for _, g := range guardsAt(bw.Block()) {
+				for _, g := range guardsOf(bw) {
 					if x, o, y, ok := cmpGuard(g); ok && o == token.EQL && isNilConst(y) {
 						if ex, ok := x.(*ssa.Extract); ok && ex.Tuple == ssa.Value(sys) {
 							partial = true // err == nil edge: some bytes may have gone out
@@ -523,7 +541,7 @@ func ruleC02_5(c *Ctx) {
 			}
 			// guard: sent < len(data) and err == nil
 			okG := false
-			for _, g := range guardsAt(bw.Block()) {
+			for _, g := range guardsOf(bw) {
 				if x, o, y, ok := cmpGuard(g); ok && o == token.LSS {
 					if ex, ok := strip(x).(*ssa.Extract); ok && ex.Tuple == ssa.Value(sys) && ex.Index == 0 && strings.HasPrefix(expr(y), "builtin:len(param1") {
 						okG = true
@@ -531,7 +549,7 @@ func ruleC02_5(c *Ctx) {
 				}
 			}
 			c.check(okS && okG, name+" (unsent suffix)", c.at(bw), "buffers data[sent:] on sent < len(data)",
-				"after a partial write the bytes buffered for later are "+expr(arg)+" (guards "+strings.Join(guardStrings(guardsAt(bw.Block())), " && ")+") instead of data[sent:] on sent < len(data): a slow reader receives a reply with a hole or a repeat", withGuards(guardsAt(bw.Block())))
+				"after a partial write the bytes buffered for later are "+expr(arg)+" (guards "+strings.Join(guardStrings(guardsOf(bw)), " && ")+") instead of data[sent:] on sent < len(data): a slow reader receives a reply with a hole or a repeat", withGuards(guardsOf(bw)))
 		}
 		c.check(nspill >= 2, shortFn(fn)+": spill paths", p.pos(fn.Pos()), fmt.Sprintf("%d buffer writes", nspill), "the EAGAIN and the partial-write spill paths are not both present: unsent bytes would be dropped")
 	}
@@ -552,7 +570,7 @@ func ruleC02_5(c *Ctx) {
 	c.check(strip(sys.Call.Args[1]) == ssa.Value(bs), "(*conn).writev: syscall writes the input", c.at(sys), "io.Writev(fd, bs)", "the vectored write is not given the input vector")
 	// element rewrite bs[i] = bs[i][sent:]
 	var rewrite *ssa.Store
-	allInstrs(wv, func(in ssa.Instruction) {
+	p.allInstrsDeep(wv, func(in ssa.Instruction) {
 		if st, ok := in.(*ssa.Store); ok {
 			if ia, ok := st.Addr.(*ssa.IndexAddr); ok && strip(ia.X) == ssa.Value(bs) {
 				rewrite = st
@@ -582,7 +600,7 @@ func ruleC02_5(c *Ctx) {
 		// sent starts as the syscall's count and decreases by len(bs[i]) for every element that went out whole
 		init, dec := false, false
 		for _, e := range sentPhi.Edges {
-			if ex, ok := e.(*ssa.Extract); ok && ex.Tuple == ssa.Value(sys) && ex.Index == 0 {
+			if ex, ok := strip(e).(*ssa.Extract); ok && ex.Tuple == ssa.Value(sys) && ex.Index == 0 {
 				init = true
 			}
 			if bo, ok := e.(*ssa.BinOp); ok && bo.Op == token.SUB && bo.X == ssa.Value(sentPhi) && strings.HasPrefix(expr(bo.Y), "builtin:len(param1<bs>[") {
@@ -592,12 +610,12 @@ func ruleC02_5(c *Ctx) {
 		c.check(init && dec, "(*conn).writev: sent accounting", c.at(rewrite), "sent = n; sent -= len(bs[i]) per fully sent element",
 			"the running count of sent bytes is not (syscall result minus the lengths of the elements fully sent): the cut is made at the wrong offset")
 		okG := false
-		for _, g := range guardsAt(rewrite.Block()) {
+		for _, g := range guardsOf(rewrite) {
 			if x, o, y, ok := cmpGuard(g); ok && o == token.LSS && x == ssa.Value(sentPhi) && strings.HasPrefix(expr(y), "builtin:len(param1<bs>[") {
 				okG = true
 			}
 		}
-		c.check(okG, "(*conn).writev: cut element test", c.at(rewrite), "on sent < len(bs[i])", "the element to cut is not selected by sent < len(bs[i])", withGuards(guardsAt(rewrite.Block())))
+		c.check(okG, "(*conn).writev: cut element test", c.at(rewrite), "on sent < len(bs[i])", "the element to cut is not selected by sent < len(bs[i])", withGuards(guardsOf(rewrite)))
 	}
 	// tail handed to the buffer: bs[pos:] with pos the index of the cut element
 	nW := 0
@@ -607,7 +625,7 @@ func ruleC02_5(c *Ctx) {
 			continue // whole vector (backlog / EAGAIN)
 		}
 		nW++
-		sl, ok := arg.(*ssa.Slice)
+		sl, ok := through(arg).(*ssa.Slice)
 		okT := ok && strip(sl.X) == ssa.Value(bs) && sl.High == nil && sl.Low != nil
 		if okT {
 			okT = false
